@@ -1,1 +1,396 @@
-From Coq Require Import ZArith.
+(* C02 — lemmas: gmp++_int_mod.C (mod / modin / %= / %), the IntegerDom view, agreement of the overloads *)
+From Coq Require Import ZArith Lia Zquot Bool.
+From C02 Require Import Model DivSpec ProofsDiv.
+Local Open Scope Z_scope.
+Ltac Zify.zify_post_hook ::= Z.to_euclidean_division_equations.
+
+Definition in_i16 (z : Z) : Prop := - H16 <= z < H16.
+Definition in_d53 (z : Z) : Prop := - 9007199254740992 <= z <= 9007199254740992.   (* integer-valued doubles, |l| <= 2^53 *)
+Ltac cint' := unfold in_i16, in_d53 in *; cint.
+
+(* ------------------------------------------------------------------ statements *)
+Definition Eucl_rem (dom : Z -> Prop) (f : Z -> Z -> Z) : Prop :=
+  forall n d, dom d -> d <> 0 -> eucl_remainder n d (f n d).
+(* word-returning %: whenever the truncated remainder is representable in the return type, it is returned *)
+Definition Trunc_rem_when (dom ret : Z -> Prop) (f : Z -> Z -> Z) : Prop :=
+  forall n d r, dom d -> d <> 0 -> trunc_remainder n d r -> ret r -> f n d = r.
+
+(* ------------------------------------------------------------------ values *)
+Lemma mod0 : forall d, 0 mod d = 0. Proof. intros. apply Zmod_0_l. Qed.
+Lemma rem0 : forall d, Z.rem 0 d = 0. Proof. intros. apply Zrem_0_l. Qed.
+
+Lemma mod_if0 : forall n d, (if isZero n then 0 else n mod d) = n mod d.
+Proof. intros n d. zcase n; [rewrite mod0|]; reflexivity. Qed.
+Lemma mod_ifn : forall n d, (if isZero n then n else n mod d) = n mod d.
+Proof. intros n d. zcase n; [rewrite mod0|]; reflexivity. Qed.
+Lemma rem_if0 : forall n d, (if isZero n then 0 else Z.rem n d) = Z.rem n d.
+Proof. intros n d. zcase n; [rewrite rem0|]; reflexivity. Qed.
+Lemma rem_ifn : forall n d, (if isZero n then n else Z.rem n d) = Z.rem n d.
+Proof. intros n d. zcase n; [rewrite rem0|]; reflexivity. Qed.
+
+Lemma mod_I_val : forall n d, mod_I n d = n mod Z.abs d.
+Proof. intros. unfold mod_I, mpz_mod. apply mod_if0. Qed.
+Lemma modin_I_val : forall n d, modin_I n d = n mod Z.abs d.
+Proof. intros. unfold modin_I, mpz_mod. apply mod_ifn. Qed.
+Lemma mod_ul_val : forall n d, in_u64 d -> mod_ul n d = n mod Z.abs d.
+Proof. intros n d H. unfold mod_ul, mpz_mod_ui. rewrite mod_if0. rewrite Z.abs_eq by (cint; lia). reflexivity. Qed.
+Lemma modin_ul_val : forall n d, in_u64 d -> modin_ul n d = n mod Z.abs d.
+Proof. intros n d H. unfold modin_ul, mpz_mod_ui. rewrite mod_ifn. rewrite Z.abs_eq by (cint; lia). reflexivity. Qed.
+
+(* the signed-word bodies: `if (n>0) mpz_mod_ui(.., n) else mpz_mod_ui(.., -n)`; -INT64_MIN wraps to INT64_MIN, whose
+   conversion to unsigned long is 2^63 = |INT64_MIN| *)
+Lemma sgn_split_abs : forall d, in_i64 d -> d <> 0 ->
+  (if 0 <? d then to_u64 d else to_u64 (c_neg64 d)) = Z.abs d.
+Proof.
+  intros d H Hd. destruct (Z.ltb_spec 0 d).
+  - apply to_u64_pos; assumption.
+  - apply to_u64_neg64; [assumption|lia].
+Qed.
+
+Lemma mod_l_val : forall n d, in_i64 d -> d <> 0 -> mod_l n d = n mod Z.abs d.
+Proof.
+  intros n d H Hd. unfold mod_l, mpz_mod_ui. rewrite <- (sgn_split_abs d H Hd).
+  zcase n; [destruct (0 <? d); rewrite mod0; reflexivity|]. destruct (0 <? d); reflexivity.
+Qed.
+Lemma modin_l_val : forall n d, in_i64 d -> d <> 0 -> modin_l n d = n mod Z.abs d.
+Proof.
+  intros n d H Hd. unfold modin_l, mpz_mod_ui. rewrite <- (sgn_split_abs d H Hd).
+  zcase n; [destruct (0 <? d); rewrite mod0; reflexivity|]. destruct (0 <? d); reflexivity.
+Qed.
+Lemma mod_i_val : forall n d, in_i32 d -> d <> 0 -> mod_i n d = n mod Z.abs d.
+Proof. intros n d H Hd. unfold mod_i. pose proof (i32_i64 d H). rewrite to_i64_id by assumption. apply mod_l_val; assumption. Qed.
+Lemma mod_u_val : forall n d, in_u32 d -> mod_u n d = n mod Z.abs d.
+Proof. intros n d H. unfold mod_u. pose proof (u32_u64 d H). rewrite to_u64_id by assumption. apply mod_ul_val; assumption. Qed.
+
+(* ------------------------------------------------------------------ mod / modin : 0 <= r < |d| *)
+Lemma mod_I_er : Eucl_rem anyZ mod_I.
+Proof. intros n d _ Hd. apply er_of_val; [assumption|apply mod_I_val]. Qed.
+Lemma modin_I_er : Eucl_rem anyZ modin_I.
+Proof. intros n d _ Hd. apply er_of_val; [assumption|apply modin_I_val]. Qed.
+Lemma mod_ul_er : Eucl_rem in_u64 mod_ul.
+Proof. intros n d H Hd. apply er_of_val; [assumption|apply mod_ul_val; assumption]. Qed.
+Lemma modin_ul_er : Eucl_rem in_u64 modin_ul.
+Proof. intros n d H Hd. apply er_of_val; [assumption|apply modin_ul_val; assumption]. Qed.
+Lemma mod_l_er : Eucl_rem in_i64 mod_l.
+Proof. intros n d H Hd. apply er_of_val; [assumption|apply mod_l_val; assumption]. Qed.
+Lemma modin_l_er : Eucl_rem in_i64 modin_l.
+Proof. intros n d H Hd. apply er_of_val; [assumption|apply modin_l_val; assumption]. Qed.
+Lemma mod_i_er : Eucl_rem in_i32 mod_i.
+Proof. intros n d H Hd. apply er_of_val; [assumption|apply mod_i_val; assumption]. Qed.
+Lemma mod_u_er : Eucl_rem in_u32 mod_u.
+Proof. intros n d H Hd. apply er_of_val; [assumption|apply mod_u_val; assumption]. Qed.
+
+(* ------------------------------------------------------------------ %= : truncated remainder, sign of the dividend *)
+Lemma op_modeq_I_val : forall n d, op_modeq_I n d = Z.rem n d.
+Proof. intros. unfold op_modeq_I, mpz_tdiv_r. apply rem_ifn. Qed.
+Lemma op_modeq_ul_val : forall n d, op_modeq_ul n d = Z.rem n d.
+Proof. intros. unfold op_modeq_ul, mpz_tdiv_r_ui. cbn [fst]. apply rem_ifn. Qed.
+Lemma op_modeq_l_val : forall n d, in_i64 d -> d <> 0 -> op_modeq_l n d = Z.rem n d.
+Proof.
+  intros n d H Hd. unfold op_modeq_l, mpz_tdiv_r_ui. cbn [fst]. rewrite rem_ifn, to_u64_abs64 by assumption.
+  apply Z.rem_abs_r; assumption.
+Qed.
+
+Lemma op_modeq_I_tr : Trunc_rem anyZ op_modeq_I.
+Proof. intros n d _ Hd. apply tr_of_val; [assumption|apply op_modeq_I_val]. Qed.
+Lemma op_modeq_T_tr : Trunc_rem anyZ op_modeq_T.
+Proof. exact op_modeq_I_tr. Qed.
+Lemma op_modeq_ul_tr : Trunc_rem in_u64 op_modeq_ul.
+Proof. intros n d _ Hd. apply tr_of_val; [assumption|apply op_modeq_ul_val]. Qed.
+Lemma op_modeq_l_tr : Trunc_rem in_i64 op_modeq_l.
+Proof. intros n d H Hd. apply tr_of_val; [assumption|apply op_modeq_l_val; assumption]. Qed.
+Lemma op_modeq_u_tr : Trunc_rem in_u32 op_modeq_u.
+Proof.
+  intros n d H Hd. apply tr_of_val; [assumption|]. unfold op_modeq_u. rewrite to_u64_id by (apply u32_u64; assumption).
+  apply op_modeq_ul_val.
+Qed.
+Lemma op_modeq_i_tr : Trunc_rem in_i32 op_modeq_i.
+Proof.
+  intros n d H Hd. apply tr_of_val; [assumption|]. unfold op_modeq_i. pose proof (i32_i64 d H).
+  rewrite to_i64_id by assumption. apply op_modeq_l_val; assumption.
+Qed.
+
+(* ------------------------------------------------------------------ % *)
+Lemma op_mod_I_val : forall n d, op_mod_I n d = Z.rem n d.
+Proof. intros. unfold op_mod_I, mpz_tdiv_r. apply rem_if0. Qed.
+Lemma op_mod_I_tr : Trunc_rem anyZ op_mod_I.
+Proof. intros n d _ Hd. apply tr_of_val; [assumption|apply op_mod_I_val]. Qed.
+Lemma w_mod_I_tr : Trunc_rem anyZ w_mod_I.
+Proof. exact op_mod_I_tr. Qed.
+
+(* int64_t Integer::operator%(uint64_t): |r| is computed as an unsigned long and re-signed in int64_t *)
+Lemma op_mod_ul_val : forall n d, in_u64 d -> d <> 0 -> in_i64 (Z.rem n d) -> op_mod_ul n d = Z.rem n d.
+Proof.
+  intros n d H Hd Hr. unfold op_mod_ul, mpz_tdiv_ui.
+  zcase n; [rewrite rem0; reflexivity|]. cbv zeta.
+  destruct (tspec n d Hd) as (E & B & S). unfold tquo, trem in *.
+  assert (Sg : (0 < n /\ 0 <= Z.rem n d) \/ (n < 0 /\ Z.rem n d <= 0)) by nia.
+  remember (Z.rem n d) as r. clear Heqr E.
+  destruct (Z.eqb_spec (Z.abs r) 0); [cint; lia|].
+  destruct (Z.ltb_spec n 0); cint; lia.
+Qed.
+
+Lemma trunc_remainder_val : forall n d r, trunc_remainder n d r -> r = Z.rem n d.
+Proof. intros n d r (q & H). apply tuniq in H. apply H. Qed.
+
+Lemma op_mod_ul_trw : Trunc_rem_when in_u64 in_i64 op_mod_ul.
+Proof.
+  intros n d r H Hd T Hr. apply trunc_remainder_val in T. subst r. apply op_mod_ul_val; assumption.
+Qed.
+
+Lemma rem_small : forall n d, d <> 0 -> Z.abs (Z.rem n d) < Z.abs d.
+Proof. intros. apply Z.rem_bound_abs; assumption. Qed.
+
+Lemma op_mod_l_val : forall n d, in_i64 d -> d <> 0 -> op_mod_l n d = Z.rem n d.
+Proof.
+  intros n d H Hd. unfold op_mod_l. rewrite <- (Z.rem_abs_r n d Hd).
+  pose proof (rem_small n (Z.abs d) ltac:(lia)) as B. rewrite Z.abs_involutive in B.
+  assert (U : in_u64 (Z.abs d)) by (cint; lia).
+  assert (R : in_i64 (Z.rem n (Z.abs d))) by (cint; lia).
+  destruct (Z.ltb_spec 0 d).
+  - rewrite to_u64_pos by assumption. rewrite op_mod_ul_val by (assumption || lia). apply to_i64_id; assumption.
+  - rewrite to_u64_neg64 by (assumption || lia). rewrite op_mod_ul_val by (assumption || lia). apply to_i64_id; assumption.
+Qed.
+Lemma op_mod_l_tr : Trunc_rem in_i64 op_mod_l.
+Proof. intros n d H Hd. apply tr_of_val; [assumption|apply op_mod_l_val; assumption]. Qed.
+
+(* int32_t operator%(int32_t): |r| < |d| <= 2^31, always representable *)
+Lemma op_mod_i_val : forall n d, in_i32 d -> d <> 0 -> op_mod_i n d = Z.rem n d.
+Proof.
+  intros n d H Hd. unfold op_mod_i. pose proof (i32_i64 d H). rewrite to_i64_id by assumption.
+  rewrite op_mod_l_val by assumption. pose proof (rem_small n d Hd). cint. lia.
+Qed.
+Lemma op_mod_i_tr : Trunc_rem in_i32 op_mod_i.
+Proof. intros n d H Hd. apply tr_of_val; [assumption|apply op_mod_i_val; assumption]. Qed.
+
+(* int32_t operator%(uint32_t), int16_t operator%(uint16_t): the return type is narrower than the divisor's *)
+Lemma op_mod_u_trw : Trunc_rem_when in_u32 in_i32 op_mod_u.
+Proof.
+  intros n d r H Hd T Hr. apply trunc_remainder_val in T. subst r. unfold op_mod_u.
+  pose proof (u32_u64 d H). rewrite to_u64_id by assumption.
+  rewrite op_mod_ul_val; [apply to_i32_id; assumption|assumption|assumption|cint; lia].
+Qed.
+Lemma op_mod_us_trw : Trunc_rem_when in_u16 in_i16 op_mod_us.
+Proof.
+  intros n d r H Hd T Hr. apply trunc_remainder_val in T. subst r. unfold op_mod_us.
+  assert (in_u64 d) by (cint; lia). rewrite to_u64_id by assumption.
+  rewrite op_mod_ul_val; [cint'; lia|assumption|assumption|cint'; lia].
+Qed.
+(* template operator%(XXX) at XXX = short: through Integer, result narrowed; always representable *)
+Lemma op_mod_Ts_val : forall n d, in_i16 d -> d <> 0 -> op_mod_Ts n d = Z.rem n d.
+Proof.
+  intros n d H Hd. unfold op_mod_Ts. rewrite op_mod_I_val. pose proof (rem_small n d Hd). cint'. lia.
+Qed.
+Lemma op_mod_Ts_tr : Trunc_rem in_i16 op_mod_Ts.
+Proof. intros n d H Hd. apply tr_of_val; [assumption|apply op_mod_Ts_val; assumption]. Qed.
+(* double operator%(double) on integer-valued doubles of magnitude <= 2^53 *)
+Lemma op_mod_d_val : forall n d, in_d53 d -> d <> 0 -> op_mod_d n d = Z.rem n d.
+Proof.
+  intros n d H Hd. unfold op_mod_d. rewrite <- (Z.rem_abs_r n d Hd).
+  pose proof (rem_small n (Z.abs d) ltac:(lia)) as B. rewrite Z.abs_involutive in B.
+  assert (U : in_u64 (Z.abs d)) by (cint'; lia).
+  assert (R : in_i64 (Z.rem n (Z.abs d))) by (cint'; lia).
+  destruct (Z.ltb_spec 0 d).
+  - replace (to_u64 d) with (Z.abs d) by (cint'; lia). apply op_mod_ul_val; (assumption || lia).
+  - replace (to_u64 (- d)) with (Z.abs d) by (cint'; lia). apply op_mod_ul_val; (assumption || lia).
+Qed.
+Lemma op_mod_d_tr : Trunc_rem in_d53 op_mod_d.
+Proof. intros n d H Hd. apply tr_of_val; [assumption|apply op_mod_d_val; assumption]. Qed.
+
+(* ------------------------------------------------------------------ `/` with `%`, divmod with mod (header warning) *)
+Definition Div_mod_pair_stmt : Prop :=
+  forall n d, d <> 0 -> is_trunc n d (op_div_I n d) (op_mod_I n d).
+Lemma div_mod_pair : Div_mod_pair_stmt.
+Proof.
+  intros n d Hd. unfold op_div_I, mpz_tdiv_q. rewrite quot_if0, op_mod_I_val. apply (tspec n d Hd).
+Qed.
+
+Definition Divmod_mod_stmt : Prop :=
+  forall n d, d <> 0 -> snd (divmod_I n d) = mod_I n d.
+Lemma divmod_mod : Divmod_mod_stmt.
+Proof.
+  intros n d Hd. destruct (divmod_I_eucl n d I Hd) as (H & _).
+  apply (eucl_remainder_unique n d).
+  - exists (fst (divmod_I n d)). exact H.
+  - apply mod_I_er; [exact I|assumption].
+Qed.
+
+(* "one should not mix the two conventions and expect equalities (except if a >= 0)" *)
+Definition Conventions_agree_nonneg_stmt : Prop :=
+  forall n d, 0 <= n -> d <> 0 -> op_mod_I n d = mod_I n d /\ op_div_I n d = fst (divmod_I n d).
+Lemma conventions_agree_nonneg : Conventions_agree_nonneg_stmt.
+Proof.
+  intros n d Hn Hd. pose proof (div_mod_pair n d Hd) as T.
+  apply (trunc_eucl_agree_nonneg _ _ _ _ Hn) in T.
+  destruct (divmod_I_eucl n d I Hd) as (H & _).
+  destruct (is_eucl_unique _ _ _ _ _ _ T H) as (Eq & Er).
+  split; [|assumption]. rewrite Er. apply divmod_mod; assumption.
+Qed.
+
+(* ------------------------------------------------------------------ IntegerDom *)
+Lemma dom_mod_er : Eucl_rem anyZ dom_mod.   Proof. exact mod_I_er. Qed.
+Lemma dom_modin_er : Eucl_rem anyZ dom_modin. Proof. exact modin_I_er. Qed.
+Lemma dom_rem_er : Eucl_rem anyZ dom_rem.   Proof. exact mod_I_er. Qed.
+Lemma dom_remin_er : Eucl_rem anyZ dom_remin. Proof. exact modin_I_er. Qed.
+Lemma dom_div_tq : Trunc_quot anyZ dom_div. Proof. exact div_I_tq. Qed.
+Lemma dom_divin_tq : Trunc_quot anyZ dom_divin. Proof. exact divin_I_tq. Qed.
+Lemma dom_divexact_ex : Exact_quot anyZ dom_divexact. Proof. exact divexact_q_I_ex. Qed.
+Lemma dom_divmod_eucl : Eucl_divmod anyZ dom_divmod. Proof. exact divmod_I_eucl. Qed.
+Lemma dom_quoRem_eucl : Eucl_divmod anyZ dom_quoRem. Proof. exact divmod_I_eucl. Qed.
+
+(* the Euclidean-ring view: quo, rem, quoin, remin and quoRem describe ONE division a = b q + r, 0 <= r < |b| *)
+Definition Euclidean_ring_consistent_stmt : Prop :=
+  forall a b, b <> 0 ->
+    is_eucl a b (dom_quo a b) (dom_rem a b) /\
+    dom_quoRem a b = (dom_quo a b, dom_rem a b) /\
+    dom_quoin a b = dom_quo a b /\ dom_remin a b = dom_rem a b.
+
+Lemma dom_quo_eucl : forall a b, b <> 0 -> is_eucl a b (dom_quo a b) (dom_rem a b).
+Proof.
+  intros a b Hb. unfold dom_quo, dom_rem, ceil_r, floor_r, mpz_cdiv_q, mpz_fdiv_q. rewrite mod_I_val.
+  destruct (Z.ltb_spec b 0).
+  - destruct (cspec a b Hb) as (E & B & S). unfold cquo, crem in *.
+    assert (M : a mod Z.abs b = - (- a mod b)).
+    { rewrite (Z.abs_neq b) by lia.
+      pose proof (Z.mod_opp_opp a (- b) ltac:(lia)) as O. rewrite Z.opp_involutive in O. lia. }
+    rewrite M. unfold is_eucl. split; [exact E|]. split; nia.
+  - destruct (fspec a b Hb) as (E & B & S). unfold fquo, frem in *.
+    rewrite (Z.abs_eq b) by lia. unfold is_eucl. rewrite (Z.abs_eq b) in * by lia. split; [exact E|]. split; nia.
+Qed.
+
+Lemma euclidean_ring_consistent : Euclidean_ring_consistent_stmt.
+Proof.
+  intros a b Hb. pose proof (dom_quo_eucl a b Hb) as Q.
+  split; [exact Q|]. split; [|split].
+  - destruct (divmod_I_eucl a b I Hb) as (H & _).
+    destruct (is_eucl_unique _ _ _ _ _ _ H Q) as (E1 & E2).
+    unfold dom_quoRem. rewrite (surjective_pairing (divmod_I a b)). rewrite E1, E2. reflexivity.
+  - reflexivity.
+  - unfold dom_remin, dom_rem, dom_modin. rewrite modin_I_val, mod_I_val. reflexivity.
+Qed.
+
+(* why the repair frag/C02.fix-1.diff was needed: with quo = floor the three members describe two divisions *)
+Lemma quo_floor_inconsistent : exists a b, b <> 0 /\
+  a <> b * dom_quo_floor a b + dom_rem a b /\ dom_quo_floor a b <> fst (dom_quoRem a b).
+Proof. exists 7, (-2). split; [lia|]. vm_compute. split; discriminate. Qed.
+(* ... and it only matters for a negative divisor that does not divide a *)
+Lemma quo_floor_same_pos : forall a b, 0 < b -> dom_quo_floor a b = dom_quo a b.
+Proof. intros a b Hb. unfold dom_quo. destruct (Z.ltb_spec b 0); [lia|reflexivity]. Qed.
+
+(* isDivisor(a, b): "b | a", with b = 0 dividing only 0 *)
+Definition IsDivisor_stmt : Prop := forall a b, dom_isDivisor a b = true <-> exists k, a = b * k.
+Lemma isDivisor_spec : IsDivisor_stmt.
+Proof.
+  intros a b. unfold dom_isDivisor, isZero, dom_mod. destruct (Z.eqb_spec b 0) as [->|Hb].
+  - destruct (Z.eqb_spec a 0) as [->|Ha]; split; intro H; try reflexivity; try discriminate.
+    + exists 0. reflexivity.
+    + destruct H as (k & H). lia.
+  - rewrite mod_I_val. destruct (Z.eqb_spec (a mod Z.abs b) 0) as [E|E]; split; intro H; try reflexivity; try discriminate.
+    + apply Z.mod_divide in E; [|lia]. destruct E as (k & E). exists (k * Z.sgn b).
+      rewrite E. rewrite <- (abs_sgn_mul b (k * Z.sgn b)). pose proof (Z.sgn_abs b).
+      destruct b; cbn [Z.sgn Z.abs] in *; lia.
+    + exfalso. apply E. destruct H as (k & ->). apply Z.mod_divide; [lia|]. exists (k * Z.sgn b).
+      destruct b; cbn [Z.sgn Z.abs]; lia.
+Qed.
+
+(* ------------------------------------------------------------------ all overloads of one operation agree *)
+(* on the common domain of their divisor types every form of the operation returns the same value *)
+Definition Quotient_overloads_agree_stmt : Prop :=
+  forall n d, d <> 0 ->
+    let q := Z.quot n d in
+    (op_div_I n d = q /\ op_diveq_I n d = q /\ op_diveq_T n d = q /\ div_I n d = q /\ divin_I n d = q /\
+     trunc_r n d = q /\ trunc_v n d = q /\ w_div_I n d = q /\ dom_div n d = q /\ dom_divin n d = q) /\
+    (in_i64 d -> op_div_l n d = q /\ op_diveq_l n d = q /\ div_l n d = q /\ divin_l n d = q) /\
+    (in_u64 d -> op_div_ul n d = q /\ op_diveq_ul n d = q /\ div_ul n d = q /\ divin_ul n d = q) /\
+    (in_i32 d -> op_div_i n d = q /\ op_diveq_i n d = q /\ div_i n d = q) /\
+    (in_u32 d -> op_div_u n d = q /\ op_diveq_u n d = q).
+
+Lemma tq_val : forall n d q, trunc_quotient n d q -> q = Z.quot n d.
+Proof. intros n d q (r & H). apply tuniq in H. apply H. Qed.
+
+Lemma quotient_overloads_agree : Quotient_overloads_agree_stmt.
+Proof.
+  intros n d Hd q. subst q. repeat split; intros;
+    match goal with |- ?f n d = _ => apply (tq_val n d) end;
+    first [ apply op_div_I_tq | apply op_diveq_I_tq | apply op_diveq_T_tq | apply div_I_tq | apply divin_I_tq
+          | apply trunc_r_tq | apply trunc_v_tq | apply w_div_I_tq | apply dom_div_tq | apply dom_divin_tq
+          | apply op_div_l_tq | apply op_diveq_l_tq | apply div_l_tq | apply divin_l_tq
+          | apply op_div_ul_tq | apply op_diveq_ul_tq | apply div_ul_tq | apply divin_ul_tq
+          | apply op_div_i_tq | apply op_diveq_i_tq | apply div_i_tq | apply op_div_u_tq | apply op_diveq_u_tq ];
+    first [ exact I | assumption ].
+Qed.
+
+Definition Remainder_overloads_agree_stmt : Prop :=
+  forall n d, d <> 0 ->
+    let r := Z.rem n d in
+    (op_mod_I n d = r /\ op_modeq_I n d = r /\ op_modeq_T n d = r /\ trem_I n d = r /\ w_mod_I n d = r) /\
+    (in_i64 d -> op_mod_l n d = r /\ op_modeq_l n d = r) /\
+    (in_u64 d -> op_modeq_ul n d = r /\ trem_ul n d = r /\ trem_w n d = Z.abs r /\ (in_i64 r -> op_mod_ul n d = r)) /\
+    (in_i32 d -> op_mod_i n d = r /\ op_modeq_i n d = r) /\
+    (in_u32 d -> op_modeq_u n d = r /\ (in_i32 r -> op_mod_u n d = r)) /\
+    (in_u16 d -> in_i16 r -> op_mod_us n d = r) /\
+    (in_i16 d -> op_mod_Ts n d = r) /\
+    (in_d53 d -> op_mod_d n d = r).
+
+Lemma tr_val : forall n d r, trunc_remainder n d r -> r = Z.rem n d.
+Proof. exact trunc_remainder_val. Qed.
+
+Lemma remainder_overloads_agree : Remainder_overloads_agree_stmt.
+Proof.
+  intros n d Hd r. subst r. repeat split; intros;
+    try (match goal with |- ?f n d = Z.rem n d => apply (tr_val n d) end;
+         first [ apply op_mod_I_tr | apply op_modeq_I_tr | apply op_modeq_T_tr | apply trem_I_tr | apply w_mod_I_tr
+               | apply op_mod_l_tr | apply op_modeq_l_tr | apply op_modeq_ul_tr | apply trem_ul_tr
+               | apply op_mod_i_tr | apply op_modeq_i_tr | apply op_modeq_u_tr | apply op_mod_Ts_tr | apply op_mod_d_tr ];
+         first [ exact I | assumption ]).
+  - apply op_mod_ul_val; assumption.
+  - apply (op_mod_u_trw n d); [assumption|assumption|apply tr_of_val; [assumption|reflexivity]|assumption].
+  - apply (op_mod_us_trw n d); [assumption|assumption|apply tr_of_val; [assumption|reflexivity]|assumption].
+Qed.
+
+Definition Mod_overloads_agree_stmt : Prop :=
+  forall n d, d <> 0 ->
+    let r := n mod Z.abs d in
+    0 <= r < Z.abs d /\
+    (mod_I n d = r /\ modin_I n d = r /\ snd (divmod_I n d) = r /\
+     dom_mod n d = r /\ dom_modin n d = r /\ dom_rem n d = r /\ dom_remin n d = r /\ snd (dom_quoRem n d) = r) /\
+    (in_i64 d -> mod_l n d = r /\ modin_l n d = r /\ snd (divmod_l n d) = r) /\
+    (in_u64 d -> mod_ul n d = r /\ modin_ul n d = r /\ snd (divmod_ul n d) = r /\ frem_ul n d = r /\ frem_w n d = r) /\
+    (in_i32 d -> mod_i n d = r) /\ (in_u32 d -> mod_u n d = r).
+
+Lemma eucl_r_val : forall n d q r, is_eucl n d q r -> r = n mod Z.abs d.
+Proof. intros n d q r H. apply euniq in H. apply H. Qed.
+
+Lemma mod_overloads_agree : Mod_overloads_agree_stmt.
+Proof.
+  intros n d Hd r. subst r. split; [apply Z.mod_pos_bound; lia|].
+  repeat split; intros;
+    first [ apply mod_I_val | apply modin_I_val | apply mod_l_val; assumption | apply modin_l_val; assumption
+          | apply mod_ul_val; assumption | apply modin_ul_val; assumption | apply mod_i_val; assumption
+          | apply mod_u_val; assumption | idtac ].
+  - rewrite divmod_mod by assumption. apply mod_I_val.
+  - unfold dom_quoRem. rewrite divmod_mod by assumption. apply mod_I_val.
+  - destruct (divmod_l_eucl n d H Hd) as (E & _). apply (eucl_r_val _ _ _ _ E).
+  - destruct (divmod_ul_eucl n d H Hd) as (E & _). apply (eucl_r_val _ _ _ _ E).
+  - unfold frem_ul, mpz_fdiv_r_ui. cbn [fst]. rewrite Z.abs_eq by (cint; lia). reflexivity.
+  - unfold frem_w, mpz_fdiv_ui. rewrite Z.abs_eq by (cint; lia). reflexivity.
+Qed.
+
+(* quotients of the euclidean forms agree as well *)
+Definition Divmod_overloads_agree_stmt : Prop :=
+  forall n d, d <> 0 ->
+    (in_i64 d -> divmod_l n d = divmod_I n d) /\ (in_u64 d -> divmod_ul n d = divmod_I n d) /\
+    dom_divmod n d = divmod_I n d /\ dom_quoRem n d = divmod_I n d.
+Lemma divmod_overloads_agree : Divmod_overloads_agree_stmt.
+Proof.
+  intros n d Hd. destruct (divmod_I_eucl n d I Hd) as (HI & _). repeat split; try reflexivity; intro H.
+  - destruct (divmod_l_eucl n d H Hd) as (E & _). destruct (is_eucl_unique _ _ _ _ _ _ E HI) as (E1 & E2).
+    rewrite (surjective_pairing (divmod_l n d)), (surjective_pairing (divmod_I n d)), E1, E2. reflexivity.
+  - destruct (divmod_ul_eucl n d H Hd) as (E & _). destruct (is_eucl_unique _ _ _ _ _ _ E HI) as (E1 & E2).
+    rewrite (surjective_pairing (divmod_ul n d)), (surjective_pairing (divmod_I n d)), E1, E2. reflexivity.
+Qed.
+
+(* hypotheses are satisfiable / the statements say something: the boundary divisors *)
+Example divmod_l_int64_min : divmod_l (-1) (- H64) = (1, H64 - 1) /\ divmod_l (W64) (- H64) = (-2, 0)
+  /\ op_mod_l (-(10^30)) (- H64) = Z.rem (-(10^30)) (- H64) /\ op_mod_ul (-(W64 - 2)) (W64 - 1) = 2 (* not representable: wraps *).
+Proof. vm_compute. repeat split; reflexivity. Qed.
